@@ -13,7 +13,7 @@ def main(tier: str, seed: int) -> int:
     run = Run(PROP, tier, seed)
     np = run.pick(3, 6)
     shards = []
-    ov = {"skipuntil": True, "tags": True}
+    ov = {"skipuntil": True, "tags": True, "trivia_explicit": True, "trivia_refs": True, "ci_nonascii": True}
     shards += E.random_shards(PROP, run, JUDGES, profile="full", count=run.pick(40, 450), cap=run.pick(100, 250), maxlen=4, extra={"pipelines": np, "extra_alpha": " #"})
     shards += E.random_shards(PROP, run, JUDGES, profile="core", count=run.pick(30, 350), cap=run.pick(100, 250), maxlen=4, extra={"pipelines": np, "profile_overrides": ov})
     shards += E.random_shards(PROP, run, JUDGES, profile="trivia", count=run.pick(30, 350), cap=run.pick(100, 250), maxlen=4, extra={"pipelines": np, "profile_overrides": ov, "extra_alpha": " #"})
